@@ -123,7 +123,8 @@ def mutate(rnd, raw):
                         t_ = f_.get("type")
                         if isinstance(t_, dict) and t_.get("type") == "record" and t_.get("name", "").rsplit(".", 1)[-1] == simple:
                             t_["type"] = "error"          # the same type declared with the "error" keyword
-                rn["fields"].append({"name": "zz_byname", "type": ["null", simple], "default": rnd.choice([5, True, [1], 2.5])})
+                rn["fields"].append({"name": "zz_byname", "type": ["null", simple] if rnd.random() < 0.5 else simple,
+                                     "default": rnd.choice([5, True, [1], 2.5])})
                 return kind, s
         if kind == "default-type" and fields:
             p, f = rnd.choice(fields)
@@ -536,6 +537,7 @@ def run_c14(ctx, fa):
     algs = ["CRC-64-AVRO"] * 6 + fixed + ["MD5", "SHA-256"]
     unknown = ["crc-64-avro", "CRC64", "", "sha-256", "Md5", "SHA256 ", "rabin", "sha3", "MD-5", "whirlpool?", "CRC-64-AVRO ",
                "{md5}", "{}", "{0}", "SHA-{256}", "%s", "{algorithm}", "md5\n", "\u00e9",
+               "SHA-1", "SHA-384", "SHA-512", "SHA-224", "SHA3-256",
                "new", "scrypt", "pbkdf2_hmac", "file_digest", "algorithms_guaranteed", "__name__", "algorithms_available", "hashlib"]
     texts = ["", "a", "\"int\"", "é", "😀", "\u0000", "a" * 300, "\U0010ffff" * 3]
     texts += _rare_crc_texts(rnd)
